@@ -127,7 +127,7 @@ def run(tier):
             h = [l for p in parts for l in p]
             data, texts = gitskin.concretise(h, skin={"start": 10})
             ev, rows = stream.run_event(len(sevents), h, texts, r1, {"keep": False, "tabs": 8, "colorOnly": False,
-                                                                    "buf": 32, "hhFile": True, "rel": False, "wd": False}, skin={}, data=data)
+                                                                    "buf": 32, "hhFile": True, "rel": False, "wd": False, "commitRaw": False}, skin={}, data=data)
             sevents.append(ev)
             smeta.append(i)
     # determinism of delta's own report of its configuration (fresh hash seeds per process)
